@@ -23,6 +23,7 @@ def dispatch (cmd : String) (j : Json) : Except String Json :=
   | "peatclsm.sy.f" => cmdPeatSy j
   | "peatclsm.t.f" => cmdPeatT j
   | "curve.f" => cmdCurve j
+  | "units.f" => cmdUnits j
   | "meanet.q" => cmdMeanET (α := Rat) j
   | "meanet.f" => cmdMeanET (α := Float) j
   | "pest" => cmdPest j
